@@ -28,6 +28,80 @@ def fmtLoaded : Loaded → String
       | .dual2 l => s!"Dual2:{l.length}"
     s!"ok Curve n={n} i={s.interpolator} id={hexOfStr s.id} cv={s.convention} m={s.modifier} ib={if s.hasIndexBase then 1 else 0} cal={s.calendar}"
 
+
+/-- structural equality of JSON trees -/
+partial def jeq : JVal → JVal → Bool
+  | .null, .null => true
+  | .bool a, .bool b => a == b
+  | .num a, .num b => decide (a = b)
+  | .str a, .str b => a == b
+  | .arr a, .arr b => a.length == b.length && (a.zip b).all (fun p => jeq p.1 p.2)
+  | .obj a, .obj b => a.length == b.length && (a.zip b).all (fun p => p.1.1 == p.2.1 && jeq p.1.2 p.2.2)
+  | _, _ => false
+
+/-- is the tagged document of the form the model's writer produces (`writeDual`, `writeDual2`, `writeCurveF64`
+of Model/Load.lean, the forms the C16 document theorems quantify over)?  The components are read off the tree,
+the writer is applied to them, and the result must be the tree itself. -/
+def writtenForm (j : JVal) : Option String :=
+  match j with
+  | .obj [("Dual", inner)] =>
+    match inner with
+    | .obj [("real", .num re), ("vars", .arr vs), ("dual", .obj [_, _, ("data", .arr xs)])] =>
+      match vs.mapM asStr, xs.mapM asF64 with
+      | some names, some d => if jeq (writeDual re names d) inner then some "Dual" else none
+      | _, _ => none
+    | _ => none
+  | .obj [("Dual2", inner)] =>
+    match inner with
+    | .obj [("real", .num re), ("vars", .arr vs), ("dual", .obj [_, _, ("data", .arr xs)]),
+            ("dual2", .obj [_, _, ("data", .arr hs)])] =>
+      match vs.mapM asStr, xs.mapM asF64, hs.mapM asF64 with
+      | some names, some d, some h => if jeq (writeDual2 re names d h) inner then some "Dual2" else none
+      | _, _, _ => none
+    | _ => none
+  | .obj [("Curve", inner)] =>
+    match inner with
+    | .obj [("inner", .obj [("nodes", .obj [("F64", .obj kvs)]), ("interpolator", .obj [(interp, _)]),
+            ("id", .str id), ("convention", .str conv), ("modifier", .str modi), ("index_base", ib),
+            ("calendar", .obj [("NamedCal", .obj [("name", .str cal)])])])] =>
+      match kvs.mapM (fun kv => asF64 kv.2), (match ib with | .num b => some (some b) | .null => some none | _ => none) with
+      | some vals, some base =>
+        if jeq (writeCurveF64 (kvs.map (·.1)) vals interp id conv modi base cal) inner then some "Curve" else none
+      | _, _ => none
+    | _ => none
+  | .obj [("PPSplineF64", inner)] =>
+    match inner with
+    | .obj [("inner", .obj [("k", .num k), ("t", .arr ts), ("c", cj), ("n", .num n)])] =>
+      let c : Option (Option (List JNum)) := match cj with
+        | .null => some none
+        | .obj [_, _, ("data", .arr xs)] => (xs.mapM asF64).map some
+        | _ => none
+      match ts.mapM asF64, c with
+      | some t, some c =>
+        if k.isInt && !k.neg && n.isInt && !n.neg && jeq (writeSplineF64 k.mant t c n.mant) inner
+        then some "PPSplineF64" else none
+      | _, _ => none
+    | _ => none
+  | .obj [("FXRates", inner)] =>
+    match inner with
+    | .obj [("fx_rates", .arr qs), ("currencies", .arr cs)] =>
+      let quote : JVal → Option WQuote
+        | .obj [("pair", .arr [.obj [("name", .str a)], .obj [("name", .str b)]]),
+                ("rate", .obj [("F64", .num r)]), ("settlement", sj)] =>
+          match sj with
+          | .null => some ⟨a, b, r, none⟩
+          | .str s => (parseDateTime s).map (fun d => ⟨a, b, r, some (s, d)⟩)
+          | _ => none
+        | _ => none
+      let ccy : JVal → Option String
+        | .obj [("name", .str c)] => some c
+        | _ => none
+      match qs.mapM quote, cs.mapM ccy with
+      | some qs', some cs' => if jeq (writeFXRates qs' cs') inner then some "FXRates" else none
+      | _, _ => none
+    | _ => none
+  | _ => none
+
 /-- `<n> item*n` prefix of a token list -/
 def counted (t : List String) : Option (List String × List String) :=
   match t with
@@ -48,6 +122,16 @@ def loadStep (ds : DateState) (sp : SplineState) (toks : List String) : Option S
         | .ok l => pure (fmtLoaded l)
         | .err => pure "err"
         | .panic _ => pure "panic"
+    else if op == "written" then do
+      -- a document the library's own `to_json` wrote: of the model writer's form, and accepted by the loader
+      let text ← decodeHexStr h
+      match parseJson text with
+      | none => pure "unparsed"
+      | some j =>
+        match writtenForm j, loadTagged (fun s => ds.names.get? s) j with
+        | some tag, .ok _ => pure s!"written {tag} ok"
+        | some tag, _ => pure s!"written {tag} rejected"
+        | none, _ => pure "not-of-written-form"
     else if op == "ccy" then do
       let s ← decodeHexStr h
       match ccyTryNew s with
@@ -61,6 +145,17 @@ def loadStep (ds : DateState) (sp : SplineState) (toks : List String) : Option S
         | .d2 s => (s.k, s.t.length, s.n, s.c.map List.length)
       pure s!"k={k} t={t} n={n} c={optNat c}"
     else none
+  | ["loadtyped", tag, h] => do
+    -- the per-type `from_json` entry points: the same derived `Deserialize` the tagged entry point reaches
+    -- through its variant, so the model is the tagged loader on the document wrapped in its tag
+    let text ← decodeHexStr h
+    match parseJson text with
+    | none => pure "err"
+    | some j =>
+      match loadTagged (fun s => ds.names.get? s) (.obj [(tag, j)]) with
+      | .ok l => pure (fmtLoaded l)
+      | .err => pure "err"
+      | .panic _ => pure "panic"
   | ["fxpair", a, b] => do
     let a ← decodeHexStr a
     let b ← decodeHexStr b
